@@ -73,6 +73,7 @@ def ceval(text, env, old_env, specns):
 
 def resolve(target):
     relfile, qual = target.split('::')
+    qual = qual.split('@')[0]          # 'f@variant': a second contract on f
     modname = 'chameleon.' + relfile[:-3].replace('/', '.')
     mod = importlib.import_module(modname)
     obj = mod
